@@ -112,6 +112,10 @@ class Bounds:
                     int_args.add(name)
         self.int_args = int_args
         self.pre = self.param_invariants()
+        # fixed-size array fields (also inside inlined inner views): the length is part of the type
+        for path, ty in self.ftypes.items():
+            if isinstance(ty, dict) and 'array' in ty and str(ty.get('len_str', '')).strip().isdigit():
+                self.pre.append(op('eq', ('len', ('in', path)), lit(int(str(ty['len_str']).strip()), 'i')))
         self.inv = []
         self.log = []
 
@@ -122,7 +126,26 @@ class Bounds:
     def param_invariants(self):
         """Conditions on parameter fields that hold in every constructed view: N >= 1 for every usize
         parameter (the properties' domain) plus the constructor's own asserts mapped onto the fields."""
-        pre = [op('ge', ('in', p), lit(1, 'i')) for p in self.int_params]
+        # N >= 1 is the properties' domain for the constructor ARGUMENTS; a parameter field inherits it only if every public
+        # constructor stores an argument unchanged or a term that is provably >= 1 under (arguments >= 1, constructor asserts)
+        pre = []
+        pubs = [mm for mm in self.m.ctor_models if mm['init'] is not None and mm['fn'].vis.startswith('Public')]
+        for p in self.int_params:
+            ok1 = bool(pubs)
+            for mm in pubs:
+                t = mm['init'].get(p)
+                if t is None:
+                    ok1 = False
+                    break
+                if isinstance(t, tuple) and t and t[0] == 'arg':
+                    continue
+                hyp = [op('ge', ('arg', a), lit(1, 'i')) for a in self.int_args] + [c for c in mm['pre'] if isinstance(c, tuple)]
+                try:
+                    if not entails(hyp, op('ge', t, lit(1, 'i')), Ctx(self.int_fields, self.int_args, mm['vg'].loops)):
+                        ok1 = False
+                except Exception:
+                    ok1 = False
+            pre.append(op('ge', ('in', p), lit(1 if ok1 else 0, 'i')))
         per_ctor = []
         for mm in self.m.ctor_models:
             if mm['init'] is None or not mm['fn'].vis.startswith('Public'):
